@@ -110,6 +110,15 @@ fn cmp(path: &str, shown: &str, exp: &Result<TzEval, String>, got_rule: Option<O
             if r != want {
                 return Err(format!("TZ string {shown:?} via {path}: decoded to {r:?}, expected {want:?}"));
             }
+            // ... and read through its accessors (primitive values only, nothing leans on the crate's `==`): the getters of the decoded
+            // rule must spell the oracle's value itself
+            let seen = match &r {
+                TransitionRule::Fixed(l) => TzEval::Fixed(crate::model::MLtt::from_tz(l)),
+                TransitionRule::Alternate(a) => TzEval::Alt(crate::model::MRule::from_tz(a)),
+            };
+            if format!("{seen:?}") != format!("{v:?}") {
+                return Err(format!("TZ string {shown:?} via {path}: the decoded rule's accessors read {seen:?}, the string denotes {v:?}"));
+            }
             Ok(())
         }
         (Ok(v), Some(None)) => Err(format!("TZ string {shown:?} via {path}: accepted without a rule, expected {v:?}")),
